@@ -18,7 +18,7 @@ func TestSeeds(t *testing.T) {
 	t.Run("socks5-server", func(t *testing.T) {
 		sels, seeds := socks5ServerSeeds()
 		for i := range seeds {
-			for j, fr := range frags {
+			for j, fr := range frags[:4] {
 				oracleSocks5Server(t, sels[i], fr, seeds[i])
 				oracleSocks5Server(t, sels[i]|8|uint8((i+j)%14)<<4, fr, seeds[i])
 			}
@@ -27,10 +27,8 @@ func TestSeeds(t *testing.T) {
 	t.Run("socks5-client", func(t *testing.T) {
 		sels, seeds := socks5ClientSeeds()
 		for i := range seeds {
-			for _, fr := range frags {
-				for tk := uint8(0); tk < 4; tk++ {
-					oracleSocks5Client(t, sels[i]|tk<<2, fr, seeds[i])
-				}
+			for j, fr := range frags {
+				oracleSocks5Client(t, sels[i]|uint8(i+j)&3<<2, fr, seeds[i])
 			}
 		}
 	})
